@@ -612,6 +612,10 @@ class Interp:
                 c_ = r_.concrete()
                 return c_ if c_ is not None else r_
             if isinstance(base, Ref) and h.objs[base.name]['__class__'] == 'dict':
+                fac_ = h.objs[base.name].get('default')
+                if fac_ is not None and not h.dict_has(base, key):
+                    # collections.defaultdict: a read of a missing key stores the factory's product
+                    h.dict_set(base, key, self.call_value(fac_, [], e))
                 return h.dict_get(base, key, e.lineno)
             if h.is_list(base) or isinstance(base, (list, tuple)):
                 items = h.items(base) if h.is_list(base) else list(base)
@@ -735,6 +739,10 @@ class Interp:
             else:
                 names = [norm(x) for x in cl.elts] if isinstance(cl, ast.Tuple) else [norm(cl)]
             return any(h.isinstance_(args[0], nme.split('.')[-1]) for nme in names)
+        if norm(fn) in ('collections.defaultdict', 'defaultdict') and norm(fn).split('.')[0] not in env and not kwargs and len(args) == 1:
+            d_ = h.new_dict()
+            h.objs[d_.name]['default'] = args[0]
+            return d_
         if isinstance(fn, ast.Name) and fn.id == 'dict' and 'dict' not in env and not kwargs and len(args) <= 1:
             # dict() / dict(iterable of pairs) / dict(mapping)
             d_ = h.new_dict()
@@ -998,6 +1006,24 @@ class Interp:
                 return h.new_list(r)
             return r
         raise AnalysisError('heap model: call %s' % norm(e)[:60])
+
+    def call_value(self, f, args, e):
+        """call an evaluated callable (default factories): the builtin container types and closures"""
+        h = self.h
+        if isinstance(f, Closure):
+            return self.call(f, list(args), {})
+        if isinstance(f, tuple) and len(f) == 2 and f[0] == 'class' and not args:
+            if f[1] in ('set',):
+                return set()
+            if f[1] == 'list':
+                return h.new_list([])
+            if f[1] == 'dict':
+                return h.new_dict()
+            if f[1] == 'int':
+                return 0
+            if f[1] == 'str':
+                return ''
+        raise AnalysisError('heap model: call of the value %r' % (f,))
 
     def class_value(self, cname, attr, cur_cls):
         """class-level constants that are values of the model: compiled regexes, namedtuple types, plain constants"""
